@@ -464,7 +464,7 @@ func (c *Ctx) heapArr(st *State, lf leaf) *Term {
 	if a, ok := st.Heap[lf.Key]; ok {
 		return a
 	}
-	a := Var("heap0."+sanitize(lf.Key), ArraySort(IntSort, ArraySort(c.IntSort(), lf.Sort)))
+	a := Var("heap0."+c.modeTag()+"."+sanitize(lf.Key), ArraySort(IntSort, ArraySort(c.IntSort(), lf.Sort)))
 	st.Heap[lf.Key] = a
 	return a
 }
